@@ -226,7 +226,7 @@ pub fn run(r: &mut Report, _replay: Option<&str>) {
     let mut d = Driver::spawn();
     let (shard, nshards) = shard();
     r.rule = "worlds as in the resolver core, each updated under six update modes (check, prune, regenerate, random flags, certify clean-up of one package, mixed per-package); non-trivial = the update keeps at least one imported/publisher/exemption record; distinct by hash of the encoded world".into();
-    let n = if r.thorough() { 24000 } else { 3200 } / nshards;
+    let n = if r.thorough() { 36000 } else { 9600 } / nshards;
     let mut rng = Rng::new(r.seed.wrapping_add(shard.wrapping_mul(104729)));
     let only: Option<u64> = std::env::var("VERIF_ONLY").ok().and_then(|s| s.parse().ok());
     for i in 0..n {
